@@ -67,11 +67,7 @@ theorem no_at_of_bracket_head {r : Bytes} (h : hasUserinfo (91 :: r) = false) : 
   have h64 : 64 ∈ r := by simpa using hm
   unfold hasUserinfo at h
   rw [contains_true_of_mem hm] at h
-  simp only [Bool.true_and] at h
-  have hbl : beforeLast 64 (91 :: r) = 91 :: beforeLast 64 r := by
-    simp [beforeLast, h64]
-  rw [hbl] at h
-  simp [before, takeUntil] at h
+  cases h
 
 theorem after_head (c : Nat) (r : Bytes) : after c (c :: r) = r := by
   simp [after, dropUntil]
